@@ -236,6 +236,21 @@ impl SparqlDatabase {
         }
     }
 
+    /// Encode a term that `clean_ntriples_term` has already reduced to its
+    /// lexical form. Such a value must not be parsed a second time: only quoted
+    /// triples (which `clean_ntriples_term` keeps verbatim) still need
+    /// structural encoding. Pushing a decoded literal through
+    /// `encode_term_star` again would strip leading/trailing white space, a
+    /// leading `"` or a surrounding `<...>` that belong to the literal value.
+    fn encode_cleaned_term(&self, term: &str) -> u32 {
+        if term.starts_with("<<") && term.ends_with(">>") {
+            self.encode_term_star(term)
+        } else {
+            let mut dict = self.dictionary.write().unwrap();
+            dict.encode(term)
+        }
+    }
+
     /// Decode a u32 ID that may be a regular dictionary ID or a quoted triple ID.
     pub fn decode_any(&self, id: u32) -> Option<String> {
         if is_quoted_triple_id(id) {
@@ -1392,9 +1407,9 @@ impl SparqlDatabase {
         for triple_strings in non_encoded_triples {
             for (subject, predicate, object) in triple_strings {
                 let main_triple = Triple {
-                    subject: self.encode_term_star(&subject),
-                    predicate: self.encode_term_star(&predicate),
-                    object: self.encode_term_star(&object),
+                    subject: self.encode_cleaned_term(&subject),
+                    predicate: self.encode_cleaned_term(&predicate),
+                    object: self.encode_cleaned_term(&object),
                 };
                 encoded_triples.push(main_triple);
             }
@@ -1425,20 +1440,20 @@ impl SparqlDatabase {
             if let Some((subject, predicate, object, graph)) =
                 self.parse_nquads_line(line_without_dot)
             {
-                match graph {
+                let graph = match graph {
                     Some(graph) => {
-                        self.add_quad_parts(&subject, &predicate, &object, &graph);
+                        let mut dict = self.dictionary.write().unwrap();
+                        GraphId::Named(dict.encode(&graph))
                     }
-                    None => {
-                        let quad = Quad {
-                            subject: self.encode_term_star(&subject),
-                            predicate: self.encode_term_star(&predicate),
-                            object: self.encode_term_star(&object),
-                            graph: GraphId::Default,
-                        };
-                        self.add_quad(quad);
-                    }
-                }
+                    None => GraphId::Default,
+                };
+                let quad = Quad {
+                    subject: self.encode_cleaned_term(&subject),
+                    predicate: self.encode_cleaned_term(&predicate),
+                    object: self.encode_cleaned_term(&object),
+                    graph,
+                };
+                self.add_quad(quad);
             }
         }
     }
